@@ -73,7 +73,7 @@ func VerifLemma_C01D_MultiBucket() {
 		verifAssert(err == nil && fileInfo != nil, "path served by one module is found")
 		if err == nil && fileInfo != nil {
 			verifAssert(index == owner, "delegate index is the serving module")
-			verifAssert(fileInfo.Path() == path && fileInfo.Module() == Module(mods[owner]), "file info is the serving module's")
+			verifAssert(fileInfo.Path() == path && fileInfo.Module() != nil && fileInfo.Module().OpaqueID() == mods[owner].opaqueID, "file info is the serving module's")
 		}
 	default:
 		verifCover("served twice")
